@@ -325,6 +325,14 @@ class NpShadow:
             dtype = object
         return _np.ascontiguousarray(a, dtype=dtype, **kw)
 
+    def isclose(self, a, b, **kw):
+        if isinstance(a, Sym) or isinstance(b, Sym):
+            a, b = Sym.lift(a), Sym.lift(b)
+            if a.is_numeric() and b.is_numeric():
+                return bool(_np.isclose(float(a.n), float(b.n), **kw))
+            return a.same(b)          # generic symbolic values: close only if identical
+        return _np.isclose(a, b, **kw)
+
     def allclose(self, a, b, **kw):
         raise RuntimeError('allclose on symbolic data')
 
